@@ -34,6 +34,7 @@ type Query {
   self: Query
   fail: String
   box(in: Box): String
+  ghost: String
 }
 
 input Box {
@@ -53,6 +54,7 @@ type Item implements Node @go(type: "zoo.Item") {
   next: Item
   label(prefix: String, upper: Boolean): String
   kind: Kind
+  ghost: Int
 }
 
 type Other implements Node {
@@ -247,5 +249,8 @@ var Requests = []struct {
 	{`{ pick(i: 1) { id } }`, nil},
 	{`{ add(a: 1, b: 2) }`, nil},
 	{`{ box(in: {d: [1, 2], name: "n"}) }`, nil},
+	{`{ ghost name }`, nil},
+	{`{ items { id ghost } count }`, nil},
+	{`{ name g: ghost items { g2: ghost } }`, nil},
 	{`query($b: Box){ box(in: $b) }`, map[string]interface{}{"b": map[string]interface{}{"d": []interface{}{float64(3)}}}},
 }
